@@ -151,6 +151,9 @@ func (s Shape) SourceDeco(pkg string, mode, level int) string {
 			if mode == 1 && on {
 				fields = append(fields, fmt.Sprintf("\tpriv%d map[string]*%s", i, name))
 				fields = append(fields, fmt.Sprintf("\tSkip%d []chan int `parquet:\"-\"`", i))
+				// the exclusion among other keys, separated the way hand-written tags sometimes are (comma, tab)
+				fields = append(fields, fmt.Sprintf("\tSkipc%d int32 `json:\"j%d,omitempty\",parquet:\"-\"`", i, i))
+				fields = append(fields, fmt.Sprintf("\tSkipt%d *string `db:\"c%d\"\tparquet:\"-\"`", i, i))
 			}
 		}
 		excl(0)
